@@ -135,6 +135,7 @@ Step(st, o) ==
          ELSE Emit(st, NumText(IF st.h[o.n].cur > Len(st.store[st.h[o.n].name]) THEN 0 - 1 ELSE 0))
     [] o.op = "close" -> [st EXCEPT !.h[o.n] = Closed]
     [] o.op = "closeall" -> [st EXCEPT !.h = [n \in Handles |-> Closed]]
+    [] o.op = "close2" -> [st EXCEPT !.h[o.n] = Closed, !.h[o.m] = Closed]     \* CLOSE #n, #m
     [] o.op = "kill" ->
          IF ~Exists(st, o.name) THEN Fail(st, 53)
          ELSE IF IsOpenName(st, o.name) THEN Unfixed(st)
